@@ -1,7 +1,8 @@
 #!/usr/bin/env python3
-"""gen_conc.py OUT SEED NUM: schedules of the single-flight protocol from specs/EngineConcGen.tla (TLC -simulate)."""
+"""gen_conc.py OUT SEED NUM [abandon]: schedules of the single-flight protocol from specs/EngineConcGen.tla (TLC -simulate)."""
 import json, os, subprocess, sys, tempfile, shutil
 out, seed, num = sys.argv[1], int(sys.argv[2]), int(sys.argv[3])
+AB = "ab" if len(sys.argv) > 4 and sys.argv[4] == "abandon" else ""   # behaviours with one abandoned request
 SPECS = os.path.join(os.path.dirname(os.path.dirname(os.path.abspath(__file__))), "specs")
 FAMS = {"A": ([[], [1], [2, 1], [3, 2]], [4, 3, 4]),
         "B": ([[], [1], [1], [2, 3], [4, 1]], [5, 4, 2]),
@@ -14,7 +15,7 @@ with open(out, "w") as f:
         md = tempfile.mkdtemp(prefix="gc", dir=os.environ.get("VH_TMP", "/tmp"))
         p = subprocess.run(["timeout", "600", "tlc", "-workers", "1", "-simulate", f"num={num}", "-depth", "400",
                             "-seed", str(seed * 10 + k), "-metadir", md, "-cleanup", "-noGenerateSpecTE",
-                            "-config", f"EngineConcGen{fam}.cfg", "EngineConcGen.tla"],
+                            "-config", f"EngineConcGen{fam}{AB}.cfg", "EngineConcGen.tla"],
                            cwd=SPECS, stdout=subprocess.PIPE, stderr=subprocess.STDOUT, text=True)
         shutil.rmtree(md, ignore_errors=True)
         if "Error:" in p.stdout and "Invariant" in p.stdout:
